@@ -67,9 +67,11 @@ fn main() {
         }
         "C02" => {
             run.rule = "generated (signature, value, endian, offset, route); decode(encode(v)) compared with v under the reference value AST (bitwise f64, dict as multiset) and consumed == encoded length; non-trivial = container nesting >= 2, or an empty array of a container type, or offset % 8 != 0; distinct by hash(signature, bytes, endian, offset)".into();
-            let mut v = vec![spec("dyn-dbus", 300_000, 10_000_000, 160, c_dbus::c02_dyn(Format::DBus))];
+            let mut v = vec![spec("dyn-dbus", 300_000, 10_000_000, 160, c_dbus::c02_dyn(Format::DBus)), spec("threshold-dbus", 20_000, 500_000, 24, c_dbus::c02_threshold(Format::DBus))];
             #[cfg(feature = "gvariant")]
             v.push(spec("dyn-gvariant", 300_000, 10_000_000, 160, c_dbus::c02_dyn(Format::GVariant)));
+            #[cfg(feature = "gvariant")]
+            v.push(spec("threshold-gvariant", 40_000, 1_000_000, 24, c_dbus::c02_threshold(Format::GVariant)));
             v.push(spec("static", 200_000, 10_000_000, 120, c_static::static_case));
             v
         }
